@@ -36,7 +36,7 @@ STUB_COMPONENTS = ["leaf processors (with a counting tick, nothing recorded per 
 ASSUMPTIONS = ["gc object increments are reproducible to within a few objects per 100 runs inside a forked child (a no-op control history calibrates the harness's own "
                "footprint to 0)", "proportional growth is what is forbidden; a constant offset is allowed"]
 REQUIRED_PROBES = ["mode.reuse", "mode.fresh", "mode.launch", "mode.queue", "mode.launches", "queue_job_profile_with_unimportable_module", "pipeline_with_sweep", "pipeline_with_shorthand",
-                   "failing_configuration_repeated", "traced_repeats", "queue_fire_and_forget_jobs", "cli_transport_selected_in_config", "fresh_pipelines_sharing_one_orchestrator"]
+                   "failing_configuration_repeated", "traced_repeats", "queue_fire_and_forget_jobs", "cli_transport_selected_in_config", "fresh_pipelines_sharing_one_orchestrator", "fresh_pipelines_loaded_from_rewritten_yaml_path"]
 CONFIG = {
     "quick": {"runs": 64, "budget_s": 240, "timeout_s": 400},
     "thorough": {"runs": 1600, "budget_s": 1700, "timeout_s": 600},
@@ -67,7 +67,8 @@ def generate(rng: random.Random, tier: str, seed: int) -> dict:
           "bad_profile_module": rng.random() < 0.35,   # queue mode: the job's registry profile names a module that cannot be imported
           "fire_forget": rng.random() < 0.5,           # queue mode: jobs enqueued without a Future (nobody awaits their result)
           "cli_transport": rng.random() < 0.5,
-          "shared_orchestrator": rng.random() < 0.4}   # fresh mode: every new Pipeline is given the same orchestrator instance         # launch / launches: the configuration selects its transport explicitly
+          "shared_orchestrator": rng.random() < 0.4,
+          "yaml_path": rng.random() < 0.3}             # fresh mode: the configuration is (re)written to a YAML file and loaded by path before every run   # fresh mode: every new Pipeline is given the same orchestrator instance         # launch / launches: the configuration selects its transport explicitly
     if rng.random() < 0.3:
         # the repeated configuration FAILS at a node after the first one (every repetition raises / fails its Future)
         fs = [f for f in gen.applicable_failures(base) if f[0] in ("unresolvable", "type_gate", "undeclared_op", "undeclared_ctx") and f[1] >= 1]
@@ -87,28 +88,48 @@ def generate(rng: random.Random, tier: str, seed: int) -> dict:
     return sc
 
 
+_CONT = (dict, list, set, collections.deque)
+
+
 def _containers() -> dict[str, int]:
     import logging
     from semantiva.core.semantiva_component import get_component_registry
-    from semantiva.execution.component_registry import ExecutionComponentRegistry as ECR
-    from semantiva.registry import plugin_registry
-    from semantiva.registry.name_resolver_registry import NameResolverRegistry
-    from semantiva.registry.parameter_resolver_registry import ParameterResolverRegistry
-    from semantiva.registry.processor_registry import ProcessorRegistry
     out = {}
     reg = get_component_registry()
     for k in sorted(reg):
         out[f"component_registry[{k}]"] = len(reg[k])
-    # every container-valued class attribute of the registries, and every module-level container of the plugin registry,
-    # discovered by type (no list of private names to keep in step with the code)
-    for nm, obj in (("ProcessorRegistry", ProcessorRegistry), ("ECR", ECR), ("NameResolverRegistry", NameResolverRegistry),
-                    ("ParameterResolverRegistry", ParameterResolverRegistry)):
-        for attr, val in sorted(vars(obj).items()):
-            if isinstance(val, (list, dict, set)) and not attr.startswith("__"):
-                out[f"{nm}.{attr}"] = len(val)
-    for attr, val in sorted(vars(plugin_registry).items()):
-        if isinstance(val, (list, dict, set)) and not attr.startswith("__") and attr != "__all__":
-            out[f"plugin_registry.{attr}"] = len(val)
+    # every module-level container, and every container-valued class attribute, of every loaded semantiva module - discovered
+    # by type (no list of names to keep in step with the code). Size = entries, plus the entries of nested containers one
+    # level down (a dict of lists grows in its lists).
+    import sys as _sys
+
+    def size(v):
+        n = len(v)
+        for x in (v.values() if isinstance(v, dict) else v):
+            if isinstance(x, _CONT):
+                n += len(x)
+        return n
+
+    from semantiva.core import semantiva_component as _scm
+    weak_registry = getattr(_scm, "_COMPONENT_REGISTRY", None)      # sampled above through its public accessor (live classes only)
+    for mname in sorted(_sys.modules):
+        mod = _sys.modules.get(mname)
+        if mod is None or not (mname == "semantiva" or mname.startswith("semantiva.")):
+            continue
+        for attr, val in sorted(vars(mod).items(), key=lambda kv: kv[0]):
+            if attr.startswith("__"):
+                continue
+            try:
+                if val is weak_registry:
+                    continue
+                if isinstance(val, _CONT):
+                    out[f"{mname}.{attr}"] = size(val)
+                elif isinstance(val, type) and getattr(val, "__module__", None) == mname:
+                    for a2, v2 in sorted(vars(val).items(), key=lambda kv: kv[0]):
+                        if not a2.startswith("__") and isinstance(v2, _CONT):
+                            out[f"{mname}.{val.__name__}.{a2}"] = size(v2)
+            except Exception:  # noqa: BLE001 - exotic containers (weak dictionaries changing size) are skipped, never fatal
+                continue
     out["logging.loggerDict"] = len(logging.root.manager.loggerDict)
     out["logging.handlers"] = sum(len(getattr(lg, "handlers", [])) for lg in list(logging.root.manager.loggerDict.values()) + [logging.root])
     return out
@@ -322,10 +343,24 @@ def _run_mode(sc: dict, mode: str, w, stats: dict) -> list[dict]:
                 from semantiva.execution.orchestrator.orchestrator import LocalSemantivaOrchestrator
                 shared = LocalSemantivaOrchestrator()
                 roots["shared_orchestrator"] = shared
+            by_path = bool(sc.get("yaml_path")) and not failing
+            k_run = 0
             while sampler.more():
                 sampler.tick_run()
+                run_nodes = copy.deepcopy(nodes)
+                if by_path:
+                    # a job generator / deploy step rewrites the same file (same content, new mtime) before every run
+                    import os as _os2
+                    import yaml as _yaml2
+                    from semantiva.configurations import load_pipeline_from_yaml
+                    path = _os2.path.join(w.sandbox, "c18_job.yaml")
+                    with open(path, "w") as fh:
+                        fh.write(_yaml2.safe_dump({"extensions": ["svsim.lib"], "pipeline": {"nodes": nodes}}, sort_keys=False))
+                    k_run += 1
+                    _os2.utime(path, (1_600_000_000 + k_run, 1_600_000_000 + k_run))
+                    run_nodes = list(load_pipeline_from_yaml(path))
                 try:
-                    p = Pipeline(copy.deepcopy(nodes), logger=lg, trace=driver("fresh"), **({"orchestrator": shared} if shared is not None else {}))
+                    p = Pipeline(run_nodes, logger=lg, trace=driver("fresh"), **({"orchestrator": shared} if shared is not None else {}))
                 except Exception:
                     if not failing:
                         raise
@@ -339,7 +374,7 @@ def _run_mode(sc: dict, mode: str, w, stats: dict) -> list[dict]:
                                      trace=harness.trace_cfg("file", "hash", "c18_launch") if traced else None)
             argv = ["run", "launch.yaml", "-q"]
             for k, v in base["context"].items():
-                argv += ["--context", f"{k}={json.dumps(v)}"]
+                argv += ["--context", f"{k}={harness.cli_value(v)}"]
             r = harness.run_cli(argv)
             if r["code"] != 0:
                 raise RuntimeError(f"launch failed: {r['code']} {r['stderr'][:300]}")
@@ -350,7 +385,7 @@ def _run_mode(sc: dict, mode: str, w, stats: dict) -> list[dict]:
                                      trace=harness.trace_cfg("dir" if sc.get("launches_run_space") else "file", "hash", "c18_launches") if traced else None)
             argv = ["run", "one.yaml", "-q"]
             for k, v in base["context"].items():
-                argv += ["--context", f"{k}={json.dumps(v)}"]
+                argv += ["--context", f"{k}={harness.cli_value(v)}"]
             while sampler.more():
                 sampler.tick_run()
                 r = harness.run_cli(argv)         # redirect_stdout(StringIO()) inside: a fresh stdout object per launch
@@ -594,6 +629,8 @@ def execute(sc: dict, seed: int) -> dict:
             stats["probe.queue_fire_and_forget_jobs"] = 1
         if sc.get("cli_transport") and ("launch" in sc["modes"] or "launches" in sc["modes"]):
             stats["probe.cli_transport_selected_in_config"] = 1
+        if sc.get("yaml_path") and "fresh" in sc["modes"] and not sc.get("failing"):
+            stats["probe.fresh_pipelines_loaded_from_rewritten_yaml_path"] = 1
         if sc.get("shared_orchestrator") and "fresh" in sc["modes"]:
             stats["probe.fresh_pipelines_sharing_one_orchestrator"] = 1
         if sc.get("bad_profile_module") and "queue" in sc["modes"]:
